@@ -8,7 +8,7 @@ from . import common, errs, fragrun
 LEVEL = "exploration"
 RULE = ("generated programs with exactly one injected error (undefined name in 6 syntactic positions, or a type error in 5 forms) "
         "placed after arbitrary preceding text on the same line (`;`-joined bindings of strings with escapes, quotes, braces, "
-        "Unicode incl. astral and combining characters, \\x09, inline #[ ]# comments) and after 0..3 preceding lines (multi-line "
+        "Unicode incl. astral and combining characters, \\x09, inline #[ ]# comments, comments / strings / interpolated strings that end on this line but began on the previous one) and after 0..3 preceding lines (multi-line "
         "strings/comments included). Observed: every diagnostic (errors and warnings, main and sub locations) of the real front "
         "end (`vh errors`), and the rendering by `erg check` for a sample. Oracle: line within 1..=nlines, begin <= end, columns "
         "within the line (in characters); for the undefined name, source[line][cb:ce] is exactly that name; for the type error "
@@ -26,7 +26,14 @@ NAME = "undefined_nm"
 
 
 def prefix(r):
-    kind = r.choice(["none", "str", "str2", "comment", "mix", "spaces"])
+    kind = r.choice(["none", "str", "str2", "comment", "mix", "spaces", "multiline-comment", "multiline-interp", "multiline-str"])
+    if kind == "multiline-comment":
+        return kind, "#[ " + r.choice(["a", "é", "x = 1"]) + "\n " + r.choice(["b", "日本", ""]) + " ]# "
+    if kind == "multiline-interp":
+        return kind, 'k_ = 1; s_ = """a\\{k_}b\nc' + r.choice(["", "é", " d"]) + '"""; '
+    if kind == "multiline-str":
+        return kind, 's_ = """a\nb' + r.choice(["", "😀"]) + '"""; '
+
     if kind == "none":
         return kind, ""
     if kind == "str":
@@ -94,7 +101,9 @@ def make(seed):
     head = "\n".join(pre)
     line_no = head.count("\n") + 2 if pre else 1
     src = (head + "\n" if pre else "") + ptxt + ctxt + "\n" + "\n".join(post) + ("\n" if post else "")
-    return {"src": src, "line": line_no, "cb": len(ptxt) + a, "ce": len(ptxt) + b, "name": name, "prefix": pk, "construct": ck}
+    line_no += ptxt.count("\n")
+    off = len(ptxt.rsplit("\n", 1)[-1])
+    return {"src": src, "line": line_no, "cb": off + a, "ce": off + b, "name": name, "prefix": pk, "construct": ck}
 
 
 def locs_of(e):
